@@ -179,6 +179,9 @@ func (c *Ctx) c17Check(in c17Inst, d int) {
 	if in.dropNulls && r.Err == nil && r.Panic == nil && r.MErr == nil {
 		r.M = dropNullsV(r.M)
 	}
+	if MultiFaultOK(ref.Search(in.lhs, c17Docs[d]), l, r) {
+		return
+	}
 	if !SameOutcome(l, r, Enumerates(in.lhs)) {
 		c.Report(Violation{Rule: "C17/identity", Expr: in.lhs, Data: c17DocsText[d], Got: ShowOut(l), Want: ShowOut(r) + "  (= " + in.rhs + ")", Features: map[string]string{"schema": in.schema}})
 	}
@@ -301,6 +304,9 @@ func c17Random(c *Ctx, idx int) {
 		rr := c.LibSearch(in.rhs, goDoc)
 		if in.dropNulls && rr.Err == nil && rr.MErr == nil && rr.Panic == nil {
 			rr.M = dropNullsV(rr.M)
+		}
+		if MultiFaultOK(ref.Search(in.lhs, doc), l, rr) {
+			continue
 		}
 		if !SameOutcome(l, rr, Enumerates(in.lhs)) {
 			c.Report(Violation{Rule: "C17/identity", Expr: in.lhs, Data: ref.ToJSONText(doc), Got: ShowOut(l), Want: ShowOut(rr) + "  (= " + in.rhs + ")", Features: map[string]string{"schema": in.schema}})
